@@ -70,7 +70,11 @@ def verbAuthSeq (fields : List Sexp) : String :=
     -- biscuit-level content goes through the token layer's construction step (sets hold
     -- each element once) before it reaches the engine
     let toks := (← (← field "tokens" fields).mapM decToken).map Construct.normToken
-    let ops := (← (← field "ops" fields).mapM decAuthOp).map Construct.normAuthOp
+    -- `(savekeep)` = SerializePolicies with the result discarded: no effect on the authorizer
+    let opsSx := (← field "ops" fields).filter fun s => match s with
+      | .list [.atom "savekeep"] => false
+      | _ => true
+    let ops := (← opsSx.mapM decAuthOp).map Construct.normAuthOp
     let cfg := cfgOf fields
     let st : SeqState := { tok := 0, auth := AuthState.fresh { maxFacts := mf, maxIter := mi } }
     let outs := runSeq cfg false toks st ops
